@@ -511,3 +511,502 @@ fn c03_finish_step_bytes() {
     kani::cover!(!ended && ol == 4, "terminator-does-not-fit");
     kani::cover!(ended && ol >= 5, "repeated-finishing-write");
 }
+
+// =====================================================================================
+// C06 — response body framing decision table
+// =====================================================================================
+
+fn c06_parse_u64(s: &str) -> Option<u64> {
+    // oracle-side decimal parser (digits only, no sign, no whitespace, must fit u64)
+    let b = s.as_bytes();
+    if b.is_empty() {
+        return None;
+    }
+    let mut v: u64 = 0;
+    let mut i = 0;
+    while i < b.len() {
+        let c = b[i];
+        if c < b'0' || c > b'9' {
+            return None;
+        }
+        v = v.checked_mul(10)?.checked_add((c - b'0') as u64)?;
+        i += 1;
+    }
+    Some(v)
+}
+
+/// `te_chunked` is decided per cell by the generator's menu, restated here by string identity.
+fn c06_te_declares_chunked(te: Option<&str>) -> bool {
+    match te {
+        Some("chunked") | Some("Chunked") | Some("gzip, chunked") | Some("gzip,chunked ") => true,
+        _ => false,
+    }
+}
+
+fn c06_case(cl: Option<&'static str>, te: Option<&'static str>) {
+    let http10: bool = kani::any();
+    let mi = any_idx(9);
+    let method = method_at(mi);
+    let status: u16 = kani::any();
+    kani::assume(status >= 100 && status <= 999);
+    // Header lookup handed to `for_response`: names are told apart by length (14 =
+    // content-length, 17 = transfer-encoding) to keep string comparison out of the harness.
+    let cl_l: Option<&str> = cl;
+    let te_l: Option<&str> = te;
+    let lookup = |name: &str| {
+        if name.len() == 14 {
+            cl_l
+        } else if name.len() == 17 {
+            te_l
+        } else {
+            None
+        }
+    };
+    let r = BodyReader::for_response(http10, &method, status, &lookup);
+
+    let cl_num = match cl {
+        None => None,
+        Some(s) => Some(c06_parse_u64(s)),
+    };
+    let cl_bad = matches!(cl_num, Some(None));
+    let chunked = c06_te_declares_chunked(te) && !http10;
+    let is_head = mi == 1;
+    let is_connect = mi == 5;
+    let no_body_rule = is_head
+        || (is_connect && status >= 200 && status <= 299)
+        || (status >= 100 && status <= 199)
+        || status == 204
+        || status == 304;
+    let is_redirect = status >= 300 && status <= 399 && status != 304;
+    // "a redirect without any framing header": ambiguous when a Transfer-Encoding: chunked
+    // field is present but ignored because the response is HTTP/1.0 - not asserted there
+    let ambiguous = is_redirect && http10 && c06_te_declares_chunked(te) && cl.is_none();
+    match r {
+        Err(e) => {
+            assert!(cl_bad, "C06/only-non-numeric-content-length-is-an-error");
+            core::mem::forget(e);
+        }
+        Ok(mode) => {
+            assert!(!cl_bad, "C06/non-numeric-content-length-is-an-error");
+            if no_body_rule {
+                assert!(mode == BodyReader::NoBody, "C06/no-body-for-head-connect2xx-1xx-204-304");
+            } else if chunked {
+                assert!(matches!(mode, BodyReader::Chunked(Dechunker::Size)), "C06/chunked-takes-precedence");
+            } else if let Some(Some(n)) = cl_num {
+                assert!(mode == BodyReader::LengthDelimited(n), "C06/exactly-content-length");
+            } else if is_redirect {
+                if !ambiguous {
+                    assert!(mode == BodyReader::NoBody, "C06/redirect-without-framing-header-has-no-body");
+                }
+            } else {
+                assert!(mode == BodyReader::CloseDelimited, "C06/otherwise-until-close");
+            }
+        }
+    }
+    kani::cover!(no_body_rule && is_head, "head-request");
+    kani::cover!(!no_body_rule && is_redirect, "redirect-with-body-rule");
+    kani::cover!(!no_body_rule && !is_redirect && !http10, "plain-response-http11");
+}
+
+// ---- BEGIN generated C06 cells (harness/gen_c06.py)
+//@ props: C06
+//@ tier: quick
+//@ unwind: 5
+//@ unwindset: memchr=22 memrchr=22 memcmp=22 from_ascii_bytes_radix=22 from_str_radix=22 compare_lowercase_ascii=9 trim=16 next_match=16 c06_case=4
+//@ timeout: 900
+//@ encodes: BodyReader::for_response, BodyReader::header_defined, util::compare_lowercase_ascii, str::split/trim/parse::<u64>
+//@ vars: symbolic: response version 1.0/1.1, request method (9 standard), status 100..=999. Concrete per harness (one harness per menu cell): Content-Length in {absent, 0, 7, 18446744073709551615, 18446744073709551616, x, -1, " 7"} x Transfer-Encoding in {absent, chunked, Chunked, "gzip, chunked", "gzip,chunked ", gzip, chunkedx}
+//@ bounds: the 8 x 7 header menu (12 cells in the quick tier, all 56 in the thorough tier); full status / method / version ranges in every cell
+//@ outside: header strings outside the menu; several Content-Length / Transfer-Encoding fields (the lookup returns the first)
+//@ clause: no body for HEAD, 2xx to CONNECT, 1xx, 204, 304; else chunked iff HTTP/1.1 and the last... a listed coding is chunked (over Content-Length); else exactly Content-Length; else close-delimited, except 3xx (not 304) without framing header: no body; non-numeric Content-Length is an error
+#[kani::proof]
+fn c06_cell_cl_absent_te_absent() {
+    c06_case(None, None);
+}
+
+//@ like: c06_cell_cl_absent_te_absent
+//@ tier: quick
+#[kani::proof]
+fn c06_cell_cl_absent_te_chunked() {
+    c06_case(None, Some("chunked"));
+}
+
+//@ like: c06_cell_cl_absent_te_absent
+//@ tier: quick
+#[kani::proof]
+fn c06_cell_cl_absent_te_mixedcase() {
+    c06_case(None, Some("Chunked"));
+}
+
+//@ like: c06_cell_cl_absent_te_absent
+//@ tier: quick
+#[kani::proof]
+fn c06_cell_cl_absent_te_list() {
+    c06_case(None, Some("gzip, chunked"));
+}
+
+//@ like: c06_cell_cl_absent_te_absent
+//@ tier: thorough
+#[kani::proof]
+fn c06_cell_cl_absent_te_listspace() {
+    c06_case(None, Some("gzip,chunked "));
+}
+
+//@ like: c06_cell_cl_absent_te_absent
+//@ tier: thorough
+#[kani::proof]
+fn c06_cell_cl_absent_te_gzip() {
+    c06_case(None, Some("gzip"));
+}
+
+//@ like: c06_cell_cl_absent_te_absent
+//@ tier: thorough
+#[kani::proof]
+fn c06_cell_cl_absent_te_chunkedx() {
+    c06_case(None, Some("chunkedx"));
+}
+
+//@ like: c06_cell_cl_absent_te_absent
+//@ tier: quick
+#[kani::proof]
+fn c06_cell_cl_0_te_absent() {
+    c06_case(Some("0"), None);
+}
+
+//@ like: c06_cell_cl_absent_te_absent
+//@ tier: thorough
+#[kani::proof]
+fn c06_cell_cl_0_te_chunked() {
+    c06_case(Some("0"), Some("chunked"));
+}
+
+//@ like: c06_cell_cl_absent_te_absent
+//@ tier: thorough
+#[kani::proof]
+fn c06_cell_cl_0_te_mixedcase() {
+    c06_case(Some("0"), Some("Chunked"));
+}
+
+//@ like: c06_cell_cl_absent_te_absent
+//@ tier: thorough
+#[kani::proof]
+fn c06_cell_cl_0_te_list() {
+    c06_case(Some("0"), Some("gzip, chunked"));
+}
+
+//@ like: c06_cell_cl_absent_te_absent
+//@ tier: thorough
+#[kani::proof]
+fn c06_cell_cl_0_te_listspace() {
+    c06_case(Some("0"), Some("gzip,chunked "));
+}
+
+//@ like: c06_cell_cl_absent_te_absent
+//@ tier: thorough
+#[kani::proof]
+fn c06_cell_cl_0_te_gzip() {
+    c06_case(Some("0"), Some("gzip"));
+}
+
+//@ like: c06_cell_cl_absent_te_absent
+//@ tier: thorough
+#[kani::proof]
+fn c06_cell_cl_0_te_chunkedx() {
+    c06_case(Some("0"), Some("chunkedx"));
+}
+
+//@ like: c06_cell_cl_absent_te_absent
+//@ tier: quick
+#[kani::proof]
+fn c06_cell_cl_7_te_absent() {
+    c06_case(Some("7"), None);
+}
+
+//@ like: c06_cell_cl_absent_te_absent
+//@ tier: quick
+#[kani::proof]
+fn c06_cell_cl_7_te_chunked() {
+    c06_case(Some("7"), Some("chunked"));
+}
+
+//@ like: c06_cell_cl_absent_te_absent
+//@ tier: thorough
+#[kani::proof]
+fn c06_cell_cl_7_te_mixedcase() {
+    c06_case(Some("7"), Some("Chunked"));
+}
+
+//@ like: c06_cell_cl_absent_te_absent
+//@ tier: thorough
+#[kani::proof]
+fn c06_cell_cl_7_te_list() {
+    c06_case(Some("7"), Some("gzip, chunked"));
+}
+
+//@ like: c06_cell_cl_absent_te_absent
+//@ tier: thorough
+#[kani::proof]
+fn c06_cell_cl_7_te_listspace() {
+    c06_case(Some("7"), Some("gzip,chunked "));
+}
+
+//@ like: c06_cell_cl_absent_te_absent
+//@ tier: quick
+#[kani::proof]
+fn c06_cell_cl_7_te_gzip() {
+    c06_case(Some("7"), Some("gzip"));
+}
+
+//@ like: c06_cell_cl_absent_te_absent
+//@ tier: thorough
+#[kani::proof]
+fn c06_cell_cl_7_te_chunkedx() {
+    c06_case(Some("7"), Some("chunkedx"));
+}
+
+//@ like: c06_cell_cl_absent_te_absent
+//@ tier: quick
+#[kani::proof]
+fn c06_cell_cl_max_te_absent() {
+    c06_case(Some("18446744073709551615"), None);
+}
+
+//@ like: c06_cell_cl_absent_te_absent
+//@ tier: thorough
+#[kani::proof]
+fn c06_cell_cl_max_te_chunked() {
+    c06_case(Some("18446744073709551615"), Some("chunked"));
+}
+
+//@ like: c06_cell_cl_absent_te_absent
+//@ tier: thorough
+#[kani::proof]
+fn c06_cell_cl_max_te_mixedcase() {
+    c06_case(Some("18446744073709551615"), Some("Chunked"));
+}
+
+//@ like: c06_cell_cl_absent_te_absent
+//@ tier: thorough
+#[kani::proof]
+fn c06_cell_cl_max_te_list() {
+    c06_case(Some("18446744073709551615"), Some("gzip, chunked"));
+}
+
+//@ like: c06_cell_cl_absent_te_absent
+//@ tier: thorough
+#[kani::proof]
+fn c06_cell_cl_max_te_listspace() {
+    c06_case(Some("18446744073709551615"), Some("gzip,chunked "));
+}
+
+//@ like: c06_cell_cl_absent_te_absent
+//@ tier: thorough
+#[kani::proof]
+fn c06_cell_cl_max_te_gzip() {
+    c06_case(Some("18446744073709551615"), Some("gzip"));
+}
+
+//@ like: c06_cell_cl_absent_te_absent
+//@ tier: thorough
+#[kani::proof]
+fn c06_cell_cl_max_te_chunkedx() {
+    c06_case(Some("18446744073709551615"), Some("chunkedx"));
+}
+
+//@ like: c06_cell_cl_absent_te_absent
+//@ tier: quick
+#[kani::proof]
+fn c06_cell_cl_overflow_te_absent() {
+    c06_case(Some("18446744073709551616"), None);
+}
+
+//@ like: c06_cell_cl_absent_te_absent
+//@ tier: thorough
+#[kani::proof]
+fn c06_cell_cl_overflow_te_chunked() {
+    c06_case(Some("18446744073709551616"), Some("chunked"));
+}
+
+//@ like: c06_cell_cl_absent_te_absent
+//@ tier: thorough
+#[kani::proof]
+fn c06_cell_cl_overflow_te_mixedcase() {
+    c06_case(Some("18446744073709551616"), Some("Chunked"));
+}
+
+//@ like: c06_cell_cl_absent_te_absent
+//@ tier: thorough
+#[kani::proof]
+fn c06_cell_cl_overflow_te_list() {
+    c06_case(Some("18446744073709551616"), Some("gzip, chunked"));
+}
+
+//@ like: c06_cell_cl_absent_te_absent
+//@ tier: thorough
+#[kani::proof]
+fn c06_cell_cl_overflow_te_listspace() {
+    c06_case(Some("18446744073709551616"), Some("gzip,chunked "));
+}
+
+//@ like: c06_cell_cl_absent_te_absent
+//@ tier: thorough
+#[kani::proof]
+fn c06_cell_cl_overflow_te_gzip() {
+    c06_case(Some("18446744073709551616"), Some("gzip"));
+}
+
+//@ like: c06_cell_cl_absent_te_absent
+//@ tier: thorough
+#[kani::proof]
+fn c06_cell_cl_overflow_te_chunkedx() {
+    c06_case(Some("18446744073709551616"), Some("chunkedx"));
+}
+
+//@ like: c06_cell_cl_absent_te_absent
+//@ tier: quick
+#[kani::proof]
+fn c06_cell_cl_x_te_absent() {
+    c06_case(Some("x"), None);
+}
+
+//@ like: c06_cell_cl_absent_te_absent
+//@ tier: thorough
+#[kani::proof]
+fn c06_cell_cl_x_te_chunked() {
+    c06_case(Some("x"), Some("chunked"));
+}
+
+//@ like: c06_cell_cl_absent_te_absent
+//@ tier: thorough
+#[kani::proof]
+fn c06_cell_cl_x_te_mixedcase() {
+    c06_case(Some("x"), Some("Chunked"));
+}
+
+//@ like: c06_cell_cl_absent_te_absent
+//@ tier: thorough
+#[kani::proof]
+fn c06_cell_cl_x_te_list() {
+    c06_case(Some("x"), Some("gzip, chunked"));
+}
+
+//@ like: c06_cell_cl_absent_te_absent
+//@ tier: thorough
+#[kani::proof]
+fn c06_cell_cl_x_te_listspace() {
+    c06_case(Some("x"), Some("gzip,chunked "));
+}
+
+//@ like: c06_cell_cl_absent_te_absent
+//@ tier: thorough
+#[kani::proof]
+fn c06_cell_cl_x_te_gzip() {
+    c06_case(Some("x"), Some("gzip"));
+}
+
+//@ like: c06_cell_cl_absent_te_absent
+//@ tier: thorough
+#[kani::proof]
+fn c06_cell_cl_x_te_chunkedx() {
+    c06_case(Some("x"), Some("chunkedx"));
+}
+
+//@ like: c06_cell_cl_absent_te_absent
+//@ tier: thorough
+#[kani::proof]
+fn c06_cell_cl_neg_te_absent() {
+    c06_case(Some("-1"), None);
+}
+
+//@ like: c06_cell_cl_absent_te_absent
+//@ tier: quick
+#[kani::proof]
+fn c06_cell_cl_neg_te_chunked() {
+    c06_case(Some("-1"), Some("chunked"));
+}
+
+//@ like: c06_cell_cl_absent_te_absent
+//@ tier: thorough
+#[kani::proof]
+fn c06_cell_cl_neg_te_mixedcase() {
+    c06_case(Some("-1"), Some("Chunked"));
+}
+
+//@ like: c06_cell_cl_absent_te_absent
+//@ tier: thorough
+#[kani::proof]
+fn c06_cell_cl_neg_te_list() {
+    c06_case(Some("-1"), Some("gzip, chunked"));
+}
+
+//@ like: c06_cell_cl_absent_te_absent
+//@ tier: thorough
+#[kani::proof]
+fn c06_cell_cl_neg_te_listspace() {
+    c06_case(Some("-1"), Some("gzip,chunked "));
+}
+
+//@ like: c06_cell_cl_absent_te_absent
+//@ tier: thorough
+#[kani::proof]
+fn c06_cell_cl_neg_te_gzip() {
+    c06_case(Some("-1"), Some("gzip"));
+}
+
+//@ like: c06_cell_cl_absent_te_absent
+//@ tier: thorough
+#[kani::proof]
+fn c06_cell_cl_neg_te_chunkedx() {
+    c06_case(Some("-1"), Some("chunkedx"));
+}
+
+//@ like: c06_cell_cl_absent_te_absent
+//@ tier: thorough
+#[kani::proof]
+fn c06_cell_cl_space7_te_absent() {
+    c06_case(Some(" 7"), None);
+}
+
+//@ like: c06_cell_cl_absent_te_absent
+//@ tier: thorough
+#[kani::proof]
+fn c06_cell_cl_space7_te_chunked() {
+    c06_case(Some(" 7"), Some("chunked"));
+}
+
+//@ like: c06_cell_cl_absent_te_absent
+//@ tier: thorough
+#[kani::proof]
+fn c06_cell_cl_space7_te_mixedcase() {
+    c06_case(Some(" 7"), Some("Chunked"));
+}
+
+//@ like: c06_cell_cl_absent_te_absent
+//@ tier: thorough
+#[kani::proof]
+fn c06_cell_cl_space7_te_list() {
+    c06_case(Some(" 7"), Some("gzip, chunked"));
+}
+
+//@ like: c06_cell_cl_absent_te_absent
+//@ tier: thorough
+#[kani::proof]
+fn c06_cell_cl_space7_te_listspace() {
+    c06_case(Some(" 7"), Some("gzip,chunked "));
+}
+
+//@ like: c06_cell_cl_absent_te_absent
+//@ tier: thorough
+#[kani::proof]
+fn c06_cell_cl_space7_te_gzip() {
+    c06_case(Some(" 7"), Some("gzip"));
+}
+
+//@ like: c06_cell_cl_absent_te_absent
+//@ tier: thorough
+#[kani::proof]
+fn c06_cell_cl_space7_te_chunkedx() {
+    c06_case(Some(" 7"), Some("chunkedx"));
+}
+
+// ---- END generated C06 cells
